@@ -22,6 +22,7 @@ import (
 	"github.com/wi1dcard/fingerproxy/pkg/hack"
 	"github.com/wi1dcard/fingerproxy/pkg/http2"
 	"github.com/wi1dcard/fingerproxy/pkg/metadata"
+	"github.com/wi1dcard/fingerproxy/pkg/verifhook"
 )
 
 const defaultMetricsPrefix = "fingerproxy"
@@ -72,7 +73,9 @@ type Server struct {
 // Serves the connection once we accepted it
 func (server *Server) serveConn(conn net.Conn) {
 	defer recover()
+	defer verifhook.At("proxyserver.conn.exit", conn)
 	defer conn.Close()
+	verifhook.At("proxyserver.conn.start", conn)
 
 	hijackedConn := hack.NewHijackClientHelloConn(conn)
 	hijackedConn.VerboseLogFunc = server.vlogf
@@ -82,6 +85,7 @@ func (server *Server) serveConn(conn net.Conn) {
 
 	// attempt to handshake
 	if err := server.tlsHandshakeWithTimeout(tlsConn); err != nil {
+		verifhook.At("proxyserver.handshake", conn, err)
 		// https://github.com/golang/go/blob/release-branch.go1.22/src/net/http/server.go#L1925-L1929
 		if re, ok := err.(tls.RecordHeaderError); ok && re.Conn != nil && tlsRecordHeaderLooksLikeHTTP(re.RecordHeader) {
 			io.WriteString(re.Conn, "HTTP/1.0 400 Bad Request\r\n\r\nClient sent an HTTP request to an HTTPS server.\n")
@@ -98,7 +102,9 @@ func (server *Server) serveConn(conn net.Conn) {
 	}
 
 	// client hello stored in hajackedConn while reading for real handshake
+	verifhook.At("proxyserver.handshake", conn, nil)
 	rec, err := hijackedConn.GetClientHello()
+	verifhook.At("proxyserver.hello", conn, err)
 	if err != nil {
 		server.logf("could not read client hello (%s): %s", conn.RemoteAddr(), err)
 		server.metricsRequestsTotalInc("0", "")
@@ -115,20 +121,25 @@ func (server *Server) serveConn(conn net.Conn) {
 		ctx, md := metadata.NewContext(server.ctx)
 		md.ClientHelloRecord = rec
 		md.ConnectionState = cs
+		verifhook.At("proxyserver.h2.begin", conn)
 		server.HTTP2Server.ServeConn(tlsConn, &http2.ServeConnOpts{
 			Context:    ctx,
 			BaseConfig: server.HTTPServer,
 			Handler:    server.HTTPServer.Handler,
 		})
+		verifhook.At("proxyserver.h2.end", conn)
 	} else {
 		ctx, done := context.WithCancel(context.Background())
+		verifhook.At("proxyserver.h1.send", conn)
 		server.http1ConnChannelListener.SendToChannel(&hack.TLSClientHelloConn{
 			Done:              done,
 			Conn:              tlsConn,
 			ClientHelloRecord: rec,
 		})
+		verifhook.At("proxyserver.h1.sent", conn)
 		// wait for the connection to be served by HTTP/1.1 server
 		<-ctx.Done()
+		verifhook.At("proxyserver.h1.done", conn)
 	}
 
 	server.metricsRequestsTotalInc("1", cs.NegotiatedProtocol)
@@ -212,10 +223,13 @@ func (server *Server) Serve(ln net.Listener) error {
 	// handle shutting down
 	go func() {
 		<-server.ctx.Done()
+		verifhook.At("proxyserver.shutdown.begin")
 		server.vlogf("server %s is shutting down...", ln.Addr())
 		server.inShutdown.Store(true)
 		server.HTTPServer.Shutdown(context.Background())
+		verifhook.At("proxyserver.shutdown.h1done")
 		ln.Close()
+		verifhook.At("proxyserver.shutdown.lnclosed")
 	}()
 
 	// serve
@@ -247,6 +261,7 @@ func (server *Server) metricsRegistered() bool {
 }
 
 func (server *Server) metricsRequestsTotalInc(ok string, negotiatedProtocol string) {
+	verifhook.At("proxyserver.counted", ok, negotiatedProtocol)
 	if server.metricsRegistered() {
 		server.metricRequestsTotal.WithLabelValues(ok, negotiatedProtocol).Inc()
 	}
